@@ -237,6 +237,38 @@ def finish(prop_id, tier, seed, level, acc, rule, assumptions, t0, extra_cov=Non
     return 0
 
 
+def run_suite_with_monitors(acc, judge_keys):
+    """Thorough tiers: the repository's own pinned test-suite is run once with bvm/pytest_monitor.py riding along (wire-format
+    oracles on every load()/dump() the tests perform).  Test outcomes are not looked at; only what the monitors saw."""
+    out = os.path.join(tempfile.mkdtemp(prefix="bvm-suite-"), "monitor.json")
+    cmd = [PY, "-m", "pytest", "-q", "-p", "no:cacheprovider", "-p", "bvm.pytest_monitor", "--timeout=900", "--continue-on-collection-errors"]
+    if _netns_available():
+        import shlex
+        cmd = ["unshare", "-n", "sh", "-c", "ip link set lo up; exec " + " ".join(shlex.quote(c) for c in cmd)]
+    env = child_env()
+    env["BVM_PYTEST_MONITOR_OUT"] = out
+    try:
+        subprocess.run(cmd, cwd=REPO, env=env, stdout=subprocess.DEVNULL, stderr=subprocess.DEVNULL, timeout=1500)
+    except subprocess.TimeoutExpired:
+        acc.extra["suite_monitor"] = "the test-suite run timed out; nothing recorded"
+        return
+    if not os.path.exists(out):
+        acc.extra["suite_monitor"] = "the monitor plugin wrote nothing (plugin not loaded?)"
+        return
+    with open(out) as f:
+        d = json.load(f)
+    acc.extra["suite_monitor"] = {k: v for k, v in d.items() if k != "violations"}
+    for k in ("loads", "load_redump_checked", "avp_loads", "avp_load_redump_checked", "dumps", "dump_framing_checked", "tests"):
+        acc.counters["suite_" + k] += d.get(k, 0)
+    acc.evaluations += d.get("load_redump_checked", 0) + d.get("avp_load_redump_checked", 0) + d.get("dump_framing_checked", 0)
+    n_known = d.get("by_key", {}).get("known-avp-flags-from-class-default", 0)
+    if n_known and "known-avp-flags-from-class-default" in judge_keys:
+        acc.violation("known-avp-flags-from-class-default", "seen %d times while the repository's own tests ran" % n_known, {"suite_monitor": True})
+    for v in d.get("violations", []):
+        if any(v["key"].startswith(j) for j in judge_keys):
+            acc.violation("suite-monitor:" + v["key"], "%s (test %s)" % (v["what"], v["test"]), v)
+
+
 def require_vnet_fidelity(acc):
     """Network checks only: the substituted transport must agree with the real loopback on the scripted call sequence;
     a disagreement makes the run inconclusive (the model is wrong), never violated."""
